@@ -340,6 +340,15 @@ func checkReuse(sp *spec, earlier, data, canon []nv, relation string) (sorts int
 		if !same(out, canon) {
 			ks, vs := keysOf(data)
 			level, class := classify(sp.mode, ks, vs)
+			// This check only runs where a fresh instance gives ONE order, i.e.
+			// two spellings of one day/month are not a failure class here: the
+			// input class is "a pure weekday/month set".
+			switch class {
+			case "weekday-same-position":
+				class = "all-weekday"
+			case "month-same-position":
+				class = "all-month"
+			}
 			f = failf("C13/"+level+"/order-depends-on-earlier-sort/"+class,
 				"sort %q: a sorter instance that first sorted %s (%s) sorts %s to %q; a fresh instance sorts every permutation of it to %q", sp.name, show(earlier), relation, show(in), names(out), names(canon))
 			return false
